@@ -82,7 +82,7 @@ CHECKS = {
                 "exact agreement with refdb (GC closure, pruning, accept/reject and error kind), Database.GetReferences for every "
                 "live, recently deleted and dangling uuid = references recomputed from the rows; TestC04Independence additionally "
                 "loads a fresh database with the current rows at a drawn step and runs the rest of the history on both. "
-                "Non-trivial = history with a commit that garbage-collects >=1 row, prunes >=1 weak reference, or is rejected "
+                "One case in about eight runs in the Big mode (fan-in: 33-70 referrers of one row, later removed again). Non-trivial = history with a commit that garbage-collects >=1 row, prunes >=1 weak reference, or is rejected "
                 "for a reference reason; distinct = hash of (schema kinds, operation sequence).",
         "assumptions": COMMON_ASSUMPTIONS + [
             "refdb commit procedure: GC to fixpoint interleaved with weak pruning, then strong check, weak minimum, indexes",
@@ -108,7 +108,7 @@ CHECKS = {
                 "row X of an indexed table is read or rewritten unchanged, a new row takes over X's index values, the referrer is pointed at the "
                 "new row so that X is garbage collected); after every step a full scan for "
                 "duplicate index tuples, and accept/reject + 'constraint violation' must agree with refdb's final-state scan. "
-                "Non-trivial = transaction with a transient duplicate that is accepted or a final duplicate that is rejected; "
+                "Schema indexes may include optional columns and (in a reference-heavy third of the cases) reference columns, whose values also change by weak-reference pruning and garbage collection: the commit-time check has to see those rows too. Non-trivial = transaction with a transient duplicate that is accepted or a final duplicate that is rejected; "
                 "distinct = hash of (schema kinds, operation sequence).",
         "assumptions": COMMON_ASSUMPTIONS + [
             "index columns are scalar (min=max=1) columns: the cache uses the value as a Go map key",
@@ -154,7 +154,7 @@ CHECKS = {
                 "explicit and server-assigned uuids, and sometimes two inserts claim one name. refdb binds each name to the uuid the "
                 "implementation reports for the insert; after every commit all stored values must equal the model's (every use resolved "
                 "to the row actually inserted), no stored uuid-typed value may still be a name, string columns holding the same text "
-                "are untouched, clashing names are rejected. TestC15API: Create() of 2-6 models in one call whose _uuid fields hold a symbolic "
+                "are untouched, clashing names are rejected. Transactions that insert a referrer of a named row also wait on the new row with an expected row spelling the reference by the same name (== is satisfied at once, != times out). TestC15API: Create() of 2-6 models in one call whose _uuid fields hold a symbolic "
                 "name, a real uuid or nothing, with references (by name or uuid) between them, in drawn order: every model becomes its own row, "
                 "names denote the rows inserted under them, real uuids are kept; names include hex-like, braced, urn: and upper-case spellings of uuids, and the operations the API produces must tag such a string as named-uuid unless it is the canonical 36-character form. TestC15Large: transactions of 257, 300 and 520 named inserts without explicit uuids: every insert gets its own uuid and references by the first and the last name reach those rows. Non-trivial = a name used in a collection, condition or mutation "
                 "position or before its definition; distinct = hash of (schema kinds, operation sequence).",
@@ -184,7 +184,7 @@ CHECKS = {
                 "native go fuzzing (go test -fuzz, 180 s x 8 workers per target): FuzzC19Decode (target selector byte + bytes, seeded with 8 valid "
                 "encodings of each of the 16 wire types and the hostile constants) and FuzzC19Txn (a JSON array of operations executed on a populated "
                 "database with every column kind, strong/weak/map references and an index; seeded with generated valid transactions and the "
-                "degenerate operations; same oracles as TestC19Txn). Non-trivial = every executed case (each is a distinct corrupted input); distinct = "
+                "degenerate operations; same oracles as TestC19Txn). Corruptions include growing an array to 9-130 elements (many conditions, mutations, operations, set elements). TestC19Wire first sends 0-2 requests the server refuses (duplicate monitor id, unknown database, table or column, unknown method, transact without database name) from either connection and ends with a valid transaction that must be served. A memory guard (5 GB resident set) ends a test process that a request makes allocate without bound; the case in flight is the reproduction. Non-trivial = every executed case (each is a distinct corrupted input); distinct = "
                 "hash of (target, input text).",
         "assumptions": COMMON_ASSUMPTIONS + [
             "a wait without timeout (or with a positive one) is not sent: RFC 7047 5.2.6 lets it block, and the single-threaded "
@@ -238,7 +238,7 @@ CHECKS = {
                 "evaluated under 3-5 index configurations over the same columns (none; schema single/multi; client single/multi incl. "
                 "optional and map-key; mixtures). For every configuration RowCache.RowsByCondition, Database.List(conds...) and a select "
                 "operation must return exactly the uuids an independent evaluator of RFC 7047 5.1 returns (refdb.EvalCond), hence the "
-                "same answer under every configuration. TestC08API (server + connected client monitoring everything, one index configuration per case) checks "
+                "same answer under every configuration. A quarter of the rows reach their contents in two steps (created with other values in one to three columns, then updated), so that index entries have been moved before the queries run. TestC08API (server + connected client monitoring everything, one index configuration per case) checks "
                 "WhereAll/WhereAny/WhereCache/Where(model)/Where(models...).List against predictions (all / any / predicate / first index, in the order uuid, "
                 "schema indexes, client indexes, that finds a row) and that executing the operations generated by Delete(), Update(model, 1-2 drawn columns with drawn values) "
                 "or Mutate(model, a drawn valid mutation of the set, map or a numeric column) has exactly the effect the reference interpreter computes for one "
@@ -281,7 +281,7 @@ CHECKS = {
                 "changes the model handed in (reflect.DeepEqual with a reflective deep copy taken before); an arbitrary generated difference "
                 "applied by the library equals the harness' applier (toggle / add-replace-remove / overwrite). The same checks run for a mutate "
                 "operation of 1-4 mutations (repeated columns, mutations without effect, deletes that miss) whose net effect b is computed by refdb. "
-                "Non-trivial = a != b with "
+                "After every pair a further difference (an update restoring a) is computed from the model the update set holds (ModelUpdates.GetModel): that model must not change either. One case in about eight draws sets and maps of 9-120 elements from a universe of 300 (thresholds such as 64 elements). Non-trivial = a != b with "
                 "overlapping elements or b = default, or a peer difference that changes a; distinct = hash of (types, a, b shapes).",
         "assumptions": COMMON_ASSUMPTIONS + ["immutable columns are not generated here (a difference on them is rejected by design)"],
         "level_text": "exhaustive over the stated small universe (exhaustive sub-space) + exploration of larger values",
@@ -300,7 +300,7 @@ CHECKS = {
                 "insert of the final row / one delete carrying the original row / one modify whose difference applied to the first old value "
                 "gives the last new value and names no column that is back to its original value; nothing at all (table absent from "
                 "GetUpdatedTables) if the row ends as it began or is inserted and deleted; GetModel/GetRow return the last state; a bystander row of the same table receives changes in between and must keep exactly its own net update whatever happens to the first row (also when that one cancels out). Expected "
-                "states come from the reference rules (refdb.ApplyMutation). Non-trivial = sequence of length >=3 or one that restores a "
+                "states come from the reference rules (refdb.ApplyMutation). One case in about eight draws collections of 9-120 elements. Non-trivial = sequence of length >=3 or one that restores a "
                 "column; distinct = hash of (type signature, operation/mutator sequence).",
         "assumptions": COMMON_ASSUMPTIONS + ["only mutations the implementation supports are generated (see C03 tolerance classes)"],
         "level_text": "exploration: generated operation sequences on one row with net-update laws checked after every step",
@@ -318,7 +318,7 @@ CHECKS = {
                 "RowsByCondition with and without conditions) is mutated too: every path must still return the stored value. Event-handler "
                 "arguments are covered by C14. TestC13API does the same through a connected client (server, MonitorAll): List into []T and []*T, "
                 "WhereCache/Where(models)/WhereAny(...).List into both, Get, Cache().Table().Row/Rows; 1-3 mutations of returned models, then every path "
-                "must return the rows the database holds; conditionals are reused for several reads (a later List on the same ConditionalAPI must not hand out memory an earlier one returned). Non-trivial = a mutation through a non-empty slice, map or "
+                "must return the rows the database holds; conditionals are reused for several reads (a later List on the same ConditionalAPI must not hand out memory an earlier one returned). TestC13Large: tables of 300, 1027, 2051 and 4100 rows read in full through Rows, RowsByCondition and row by row, every returned model scribbled over: the cache must still hold what was stored. Non-trivial = a mutation through a non-empty slice, map or "
                 "pointer; distinct = hash of (family, read path, write path, mutation kind).",
         "assumptions": COMMON_ASSUMPTIONS + [
             "RowsShallow is the documented read-only exception",
@@ -342,7 +342,7 @@ CHECKS = {
                 "with the dispatcher released and nothing else outstanding; 20 s bound), replaying the events from empty reproduces Rows() of "
                 "every table and the reference state, per row add -> update* -> delete, update.old = replayed previous state, update old != new, "
                 "all handlers saw identical sequences; the last handler may scribble over the models it receives without effect on the cache. "
-                "Non-trivial = a row with >=3 changes and the dispatcher lagging >=2 events at some point; distinct = hash of (schema kinds, "
+                "TestC14Partial: a notification of 1-8 new rows plus one row that cannot be applied (insert of a cached row, modification or deletion of an unknown row; update and update2 encodings): however many of the other rows Go map order lets through, replaying the delivered events must reproduce the cache, also after the rows that made it are modified once more. Non-trivial = a row with >=3 changes and the dispatcher lagging >=2 events at some point; distinct = hash of (schema kinds, "
                 "schedule word, handlers).",
         "assumptions": COMMON_ASSUMPTIONS + [
             "generated histories keep fewer events outstanding than the 65536-entry buffer; TestC14Overflow overflows it once on purpose and checks that drops stop when it has free slots again",
@@ -391,7 +391,7 @@ CHECKS = {
                 "Database.List) contains something it selected: the right method and monitor id, no empty table entries, exactly the "
                 "selected rows with the right kind, no unselected column, and state-before + message (applied with the harness' own update / "
                 "update2 rules) = state-after on the monitored columns; old values must be the previous values. Failed transactions must "
-                "produce no message at all. TestC07L1: the same pre + update = post law on database.Update for thousands of L1 histories "
+                "produce no message at all. A peer may answer a drawn notification with a JSON-RPC error (it stays connected and monitoring: what it is told afterwards must not depend on that). One case in about eight runs in the Big mode (sets of up to 120 elements growing and shrinking). TestC07L1: the same pre + update = post law on database.Update for thousands of L1 histories "
                 "(GC, pruning, merges). TestC07Order (one notification per commit, in commit order, under concurrency): 2-4 connections each commit 1-4 "
                 "increments of one counter at the same time while 2-3 monitoring peers (any method) acknowledge their notifications with drawn delays "
                 "(0-8 ms): every monitor must be told exactly the values 1..N in this order. Non-trivial = transaction with >=2 net row changes (wire) / GC, pruning or multi-operation "
@@ -437,7 +437,7 @@ CHECKS = {
                 "re-establish 1-3 monitors and converge within 20 s. TestC16Outage: the endpoint is unreachable for 2-4 times the reconnect "
                 "timeout while other clients commit; TestC16Silent: the connection goes silent (the proxy keeps acknowledging the server's calls) while "
                 "the application keeps calling Transact with deadlines shorter than the inactivity timeout - a second connection must appear within 15 s; "
-                "both end with the convergence oracle. After every convergence the client indexes on T0.marker and T1.name are compared with a scan of the cache. Non-trivial = cut after the 6th message (monitor set-up begun) "
+                "both end with the convergence oracle. TestC16Large: 66000 + 1200 monitored rows (more than the 65536 entries of the event buffer), two cuts with deletions and insertions meanwhile. After every convergence the client indexes on T0.marker and T1.name are compared with a scan of the cache. Non-trivial = cut after the 6th message (monitor set-up begun) "
                 "resp. a parked window with foreign commits inside; distinct = (scenario, direction, k, mode) resp. (monitors, k, foreign kinds).",
         "assumptions": COMMON_ASSUMPTIONS + [
             "enumerated scenarios run without the inactivity probe so that the fault-free message sequence is the same in every run up to the cut",
@@ -472,7 +472,7 @@ CHECKS = {
                 "transactions in order pi on refdb reproduces every count/uuid each client received and the final Database.List; every failed "
                 "transaction fails at some position of pi compatible with its client's order; closed forms: counters = sum of committed "
                 "deltas, each contested key has exactly one winner; the caching client's cache equals the database at the end; no race report "
-                "involving libovsdb code. TestC17Tokens: 2-5 clients race to take 1-4 tokens with transactions that only delete (optionally after a select or a wait, so they look read-only at first) while monitoring peers acknowledge slowly: each token is taken by exactly one transaction, nobody gets an RPC error, every monitor is told of each deletion once. TestC17MonitorWindow pins, with the server-side verif hook, a monitor set-up between 'monitors "
+                "involving libovsdb code. Programs also detach a child from a parent (a child no parent holds is garbage collected), alone or together with a claim of a contested key - when the claim fails nothing of the detachment may remain; some children belong to both parents from the start. TestC17Tokens: 2-5 clients race to take 1-4 tokens with transactions that only delete (optionally after a select or a wait, so they look read-only at first) while monitoring peers acknowledge slowly: each token is taken by exactly one transaction, nobody gets an RPC error, every monitor is told of each deletion once. TestC17MonitorWindow pins, with the server-side verif hook, a monitor set-up between 'monitors "
                 "notified' and 'committed'. Non-trivial = run in which transactions of different clients overlapped in time at least "
                 "twice (measured by invocation/response timestamps); distinct = the observed order pi.",
         "assumptions": COMMON_ASSUMPTIONS + [
@@ -506,7 +506,7 @@ CHECKS = {
                 "Echo, Disconnect, Connect, Close) on one client, with and without reconnect, while a writer commits transactions that keep "
                 "two columns of every row equal and a chaos goroutine cuts the connection 0-3 times through the proxy: no call may exceed "
                 "the bound (a hang is reported with the blocked goroutines' stacks), no reader may obtain a row whose two columns differ, "
-                "the epilogue must succeed, no race report involving libovsdb code. Non-trivial = every enumerated combination; concurrent "
+                "the epilogue must succeed, no race report involving libovsdb code. The client of TestC18Concurrent runs without reconnect, with reconnect, or with the inactivity probe (40/120/1000 ms). TestC18Leader: a leader-only client of two servers exporting _Server receives 1-5 drawn updates of the Database rows of the servers (leadership given up or taken, server id replaced or removed, model standalone/clustered, disconnected) in any order; after each one Connected, Echo, Transact, Get and CurrentEndpoint must return within the bound, and once server 0 reports leadership again the client must connect and echo within 20 s. Non-trivial = every enumerated combination; concurrent "
                 "runs with >=2 calls overlapping a notification or with >=1 cut; distinct = (combination) / (programs, cuts, reconnect).",
         "assumptions": COMMON_ASSUMPTIONS + [
             "liveness verdicts use a 20 s bound for calls whose contexts expire after 1.5-2 s, and the report carries the stacks of the goroutines parked in libovsdb/client",
@@ -531,7 +531,7 @@ CHECKS = {
                 "library generator formats every table and the db model four times (byte-identical), output parses, TYPE-CHECKS with go/types against "
                 "the real model and ovsdb packages (source importer), and for every column the tagged struct field has, after resolving aliases, "
                 "exactly the type string of ovsdb.NativeType(column); with extended generation and enum types independently on/off. "
-                "TestC20Compiled (batches of 4-10 packages): the real cmd/modelgen binary built from /repo generates each package twice into two "
+                "One template data object configured by a drawn history of option switches (enum types and extended generation switched back and forth, ending at the same settings) and rendered twice must give the files fresh data gives. TestC20Compiled (batches of 4-10 packages): the real cmd/modelgen binary built from /repo generates each package twice into two "
                 "directories (byte-identical), with -extended on/off; the scratch module is vetted, compiled and tested: model.NewDatabaseModel("
                 "Schema(), FullDatabaseModel()) must validate, and for 40 reflectively filled values per table the generated CloneModel / "
                 "CloneModelInto / EqualsModel must agree with the generic laws (clone equal, no shared slice/map/pointer, Equal == field-wise "
